@@ -9,7 +9,7 @@ RULE = ("cases = (number of fields 1..3, common length, selector / concatenation
 ASSUMPTIONS = ["oracle: numpy indexing / concatenation of each field array on its own", "field contents are distinct per field and row so a misaligned entry is visible"]
 REQUIRED_FEATURES = ["three_fields", "two_dim_field", "zero_length", "mask_selector", "list_with_repeats", "mismatch_refused", "varlen_widths_differ",
                      "concat_triple", "single_entry", "astype_reordered_fields", "equality_other_field_shape", "inherited_class",
-                     "two_dim_first_field", "index_array_selector", "simultaneous_iterations", "mismatch_cancelling"]
+                     "two_dim_first_field", "index_array_selector", "simultaneous_iterations", "mismatch_cancelling", "keyword_construction", "equality_nan_shared_column"]
 BOUNDS = {"quick": "1-3 fields (1-D int, 2-D int, 1-D float) x length 0..4 x {every int, 27 slices, lists of length<=2 incl. empty, every mask} + iteration, "
                    "concatenate pairs and triples with lengths 0..3, equality, astype to a narrower class, fields one entry longer/shorter; VarLenArray "
                    "concatenation widths 1..3 x lengths 0..2 (pairs) and triples; five field layouts with a 2-D first field; index arrays and numpy scalars; column shapes compared; simultaneous iterations; inherited dataclass",
@@ -134,6 +134,7 @@ def cases(shard, tier):
             if n + d >= 0:
                 for which in range(1, k):
                     yield ["mismatch", k, n, d, which]
+                yield ["mismatch_kw", k, n, d, k - 1]
         if k == 3 and n >= 1:
             # two fields of the wrong length whose deviations cancel (one longer, one shorter), and both in the same direction
             for dd in ([0, 1, -1], [0, -1, 1], [1, -1, 0], [-1, 0, 1], [0, 1, 1], [1, 1, -2] if n >= 2 else [1, 0, -1]):
@@ -308,12 +309,37 @@ def check(case, acc):
                 acc.fail("fields-of-different-length-accepted", "refused", o)
     elif kind == "eqself":
         _cmp(acc, "equality-self", True, lambda: bool(mk() == mk()))
+        if k == 3 and n:
+            # a NaN entry is unequal to itself: a table holding one is not equal to a table built from the very same column objects, nor to itself
+            acc.feature("equality_nan_shared_column")
+            g = [x.copy() for x in f]
+            g[2] = g[2].copy()
+            g[2][0] = np.nan
+            want = bool(np.array_equal(g[2], g[2]))        # False: numpy's entry-wise comparison
+            _cmp(acc, "equality-shared-nan-column", want, lambda: bool(K(*g) == K(*g)))
+            _cmp(acc, "equality-self-nan", want, lambda: (lambda t: bool(t == t))(K(*g)))
     elif kind == "astype":
         _cmp(acc, "astype-narrower", [tl(f[1])], lambda: tup(mk().astype(C["b"])))
         if k == 3:
             acc.feature("astype_reordered_fields")
             _cmp(acc, "astype-narrower-reordered", {"c": f[2].tolist(), "a": f[0].tolist()},
                  lambda: (lambda o: {"c": np.asarray(o.c).tolist(), "a": np.asarray(o.a).tolist()})(mk().astype(C["ca"])))
+    elif kind == "mismatch_kw":
+        # the wrong-length field handed over by keyword (all fields by keyword / only the last one)
+        d, which = case[3], case[4]
+        g = [x.copy() for x in f]
+        g[which] = fields(k, n + d)[which]
+        acc.feature("mismatch_refused")
+        acc.feature("keyword_construction")
+        for name, mkk in (("all keywords", lambda: K(**dict(zip(names, g)))), ("last by keyword", lambda: K(*g[:-1], **{names[-1]: g[-1]}))):
+            o = attempt(lambda: tup(mkk()))
+            acc.trans()
+            if not is_refused(o):
+                acc.fail("fields-of-different-length-accepted", ("refused", name), o)
+        ok = attempt(lambda: tup(K(**dict(zip(names, f)))))
+        acc.trans()
+        if ok != [tl(x) for x in f]:
+            acc.fail("keyword-construction-wrong", [tl(x) for x in f], ok)
     elif kind == "mismatch2":
         dd = case[3]
         g = [fields(k, n + dd[j])[j] for j in range(k)]
